@@ -9,7 +9,7 @@ PROP = "C15"
 def parse_label(lab):
     m = re.match(r"(\w+)(?:\((.*)\))?", lab)
     act, args = m.group(1), [a.strip().strip('"') for a in (m.group(2) or "").split(",") if a.strip()]
-    if act in ("Start", "Cancel", "Crash"):
+    if act in ("Start", "Cancel", "Crash", "Freeze"):
         return {"op": act, "c": "-", "v": 0}
     if act == "Set":
         return {"op": "Set", "c": args[0], "v": int(args[1])}
@@ -33,11 +33,26 @@ def gen(tier, rng, cov):
             # an ungraceful death (socket file left behind) followed by a reattach
             s += 2 * any(x.startswith("Crash") and any(y.startswith("Reattach") for y in w[i + 1:]) for i, x in enumerate(w))
             s += 2 * any(x.startswith("Again") for x in w)
+            # a plugin that answers nothing any more, killed through a reattached client
+            s += 3 * any(x.startswith("Freeze") and any(y.startswith("Kill") and "c1" not in y for y in w[i + 1:]) for i, x in enumerate(w))
             return s
         good = [w for w in words if score(w) >= 2]
         n = {"quick": 16, "thorough": 300}[tier]
         for proto in ("netrpc", "grpc"):
-            for w in rng.sample(good, min(n, len(good))):
+            # (the shutdown request to a stopped net/rpc plugin is only bounded by the yamux keep-alive, C04's thorough tier)
+            pool = good if proto == "grpc" else [w for w in good if not any(x.startswith("Freeze") for x in w)]
+            # every clause-specific shape is represented (two words each), the rest is a random sample
+            feats = [lambda w: any(x.startswith("Crash") and any(y.startswith("Reattach") for y in w[i + 1:]) for i, x in enumerate(w)),
+                     lambda w: any(x.startswith("Again") for x in w),
+                     lambda w: any(x.startswith("Freeze") and any(y.startswith("Kill") and "c1" not in y for y in w[i + 1:]) for i, x in enumerate(w)),
+                     lambda w: any(x.startswith("Cancel") for x in w),
+                     lambda w: any(x.startswith("Kill") and "c1" not in x for x in w) and any(x.startswith("Get") for x in w)]
+            chosen = []
+            for f in feats:
+                cand = [w for w in pool if f(w)]
+                chosen += rng.sample(cand, min(2 if tier == "quick" else 20, len(cand)))
+            chosen += rng.sample(pool, min(max(0, n - len(chosen)), len(pool)))
+            for w in chosen:
                 ops = [parse_label(x) for x in w]
                 for o in ops:
                     if o["op"] == "Reattach":
